@@ -52,7 +52,7 @@ static std::string exactKey(XdlParser& p) {
 static char lenClass(int n) { return n <= 17 ? (char)('A' + n) : 'z'; } // exact up to the last inline/heap boundary (Var 7/8, String 15/16), one class beyond
 static std::string abstractKey(XdlParser& p, const rj::Ref& r) {
 	int st = p._state;
-	if (st == S_ERR) return "ERR";
+	if (st == S_ERR) return r.mode == rj::Ref::DEAD ? "ERR" : "ERR|R" + r.stateKey(); // a rejection while the reference is still alive keeps the reference's future
 	std::string s = fmt("s%d p%d c%d u%d|", st, (st == S_ESCAPE || st == S_UNICODECHAR) ? (int)p._prevState : -1, (int)p._inComment, p._unicodeCount);
 	for (int i = 0; i < p._context.length(); i++) s += char('0' + p._context[i]);
 	s += "|";
@@ -129,6 +129,8 @@ struct JsonSys {
 		Var v = Json::decode(vfx::A(text));
 		{ XdlParser q; q.parse(text.c_str()); q.parse(" "); Var w = q.value(); if (dumpVar(w) != dumpVar(v) || w.ok() != v.ok()) fail("chunk_dependence", "Json::decode differs from parse(text)+parse(\" \")+value()"); }
 		std::string verdict;
+		// rejection is final (ERR absorbs), so it may only happen once no RFC 8259 document starts with this text
+		if (p->_state == S_ERR && !ref.dead() && !ref.excluded) fail("reject_viable_prefix", "the parser has rejected a text that is a proper prefix of valid RFC 8259 documents");
 		if (ref.excluded) { vf::add(W_EXCLUDED); verdict = "X"; }
 		else if (ref.complete()) {
 			std::string want = rj::dump(ref.value());
